@@ -30,6 +30,7 @@ import (
 	"net/http/httptest"
 	"net/netip"
 	"os"
+	"reflect"
 	"strconv"
 	"strings"
 	"testing"
@@ -65,19 +66,105 @@ func vC06EnvInt(name string, def int) int {
 // ---------------------------------------------------------------- abstraction
 
 type vC06Tab struct {
-	names map[string]int
+	names map[string]int // exact (case-sensitive) name -> id; "." is 0
+	ents  []string       // entry id-1: "(first label length, id of the rest)"
 	rrs   map[string]int
+	bad   string // set when a record's RDATA name layout cannot be derived
 }
 
 func vC06NewTab() *vC06Tab { return &vC06Tab{names: map[string]int{}, rrs: map[string]int{}} }
 
+// name interns a domain name and all its suffixes, the way the library's compression map keys
+// them: by exact presentation string.  Equal ids <=> equal names.
 func (t *vC06Tab) name(s string) int {
+	if s == "" || s == "." {
+		return 0
+	}
 	if id, ok := t.names[s]; ok {
 		return id
 	}
-	id := len(t.names)
+	next, end := dns.NextLabel(s, 0)
+	rest := "."
+	if !end && next < len(s) {
+		rest = s[next:]
+	}
+	parent := t.name(rest)
+	label := s
+	if !end && next <= len(s) {
+		label = s[:next]
+	}
+	if !strings.HasSuffix(label, ".") {
+		label += "."
+	}
+	llen := vC06NameLen(label) - 2 // wire length of the single label
+	if llen < 0 {
+		llen = 0
+	}
+	t.ents = append(t.ents, fmt.Sprintf("(%d, %d)", llen, parent))
+	id := len(t.ents)
 	t.names[s] = id
 	return id
+}
+
+func (t *vC06Tab) table() string { return "[" + strings.Join(t.ents, "; ") + "]" }
+
+// rdata derives the RDATA layout name compression sees, generically from the library's struct tags:
+// `dns:"cdomain-name"` fields are compressible names, `dns:"domain-name"` fields are names that are
+// only entered into the map; integer fields before them have their wire width; whatever follows
+// the last name is one opaque run sized from the record's measured length.
+func (t *vC06Tab) rdata(rr dns.RR) string {
+	total := dns.Len(rr) - 10 - vC06NameLen(rr.Header().Name)
+	v := reflect.ValueOf(rr)
+	if v.Kind() == reflect.Ptr {
+		v = v.Elem()
+	}
+	var segs []string
+	pend, used, unknown := 0, 0, false
+	if v.Kind() == reflect.Struct {
+		ty := v.Type()
+		for i := 0; i < ty.NumField(); i++ {
+			f := ty.Field(i)
+			if f.Name == "Hdr" {
+				continue
+			}
+			tag := f.Tag.Get("dns")
+			if strings.Contains(tag, "domain-name") && f.Type.Kind() == reflect.String {
+				if unknown {
+					t.bad = "RDATA layout of " + ty.Name() + " not derivable"
+				}
+				if pend > 0 {
+					segs = append(segs, fmt.Sprintf("SFix %d", pend))
+					used += pend
+					pend = 0
+				}
+				nm := v.Field(i).String()
+				segs = append(segs, fmt.Sprintf("SName %s %d", vC06B(strings.Contains(tag, "cdomain-name")), t.name(nm)))
+				used += vC06NameLen(nm)
+				continue
+			}
+			if strings.Contains(tag, "domain-name") {
+				t.bad = "name list field in " + ty.Name()
+			}
+			switch f.Type.Kind() {
+			case reflect.Uint8:
+				pend++
+			case reflect.Uint16:
+				pend += 2
+			case reflect.Uint32:
+				pend += 4
+			case reflect.Uint64:
+				pend += 8
+			default:
+				unknown = true
+			}
+		}
+	}
+	if rest := total - used; rest > 0 {
+		segs = append(segs, fmt.Sprintf("SFix %d", rest))
+	} else if rest < 0 {
+		t.bad = "RDATA accounting of " + v.Type().Name() + " negative"
+	}
+	return "[" + strings.Join(segs, "; ") + "]"
 }
 
 func (t *vC06Tab) rr(rr dns.RR) int {
@@ -138,7 +225,7 @@ func vC06NameLen(s string) int {
 
 func (t *vC06Tab) absRR(rr dns.RR) string {
 	h := rr.Header()
-	return fmt.Sprintf("mk_rr %d %d %d %d %d %d", t.rr(rr), t.name(h.Name), h.Rrtype, h.Class, h.Ttl, dns.Len(rr))
+	return fmt.Sprintf("mk_rr %d %d %d %d %d %d %s", t.rr(rr), t.name(h.Name), h.Rrtype, h.Class, h.Ttl, dns.Len(rr), t.rdata(rr))
 }
 
 func (t *vC06Tab) absMsg(m *dns.Msg, alias *dns.OPT) string {
@@ -1083,7 +1170,7 @@ func TestVerifC06Server(t *testing.T) {
 
 		goFail := ""
 		obsCoq := "None"
-		oulen := 0
+		oulen, oclen := 0, 0
 		var obs *dns.Msg
 		if reply != nil {
 			obs = new(dns.Msg)
@@ -1093,6 +1180,9 @@ func TestVerifC06Server(t *testing.T) {
 			} else {
 				obsCoq = "(Some (" + tab.absMsg(obs, nil) + "))"
 				oulen = obs.Len() // an unpacked message has Compress = false
+				cm := obs.Copy()
+				cm.Compress = true
+				oclen = cm.Len()
 			}
 		}
 		dnCoq := "None"
@@ -1123,10 +1213,10 @@ func TestVerifC06Server(t *testing.T) {
 
 		var coq string
 		if (tr == vC06UDP || tr == vC06TCP) && wireTried {
-			coq = fmt.Sprintf("CaseWire %s %s (%s) %s %s %s %s %s %d %d %s %d %d", vC06TrName[tr], cfgCoq, vC06AbsHeader(raw), bodyCoq, vC06B(strict), dnCoq,
-				vC06B(hasd), edeWire, blen, clen, obsCoq, len(reply), oulen)
+			coq = fmt.Sprintf("CaseWire %s %s %s (%s) %s %s %s %s %s %d %d %s %d %d %d", vC06TrName[tr], cfgCoq, tab.table(), vC06AbsHeader(raw), bodyCoq, vC06B(strict), dnCoq,
+				vC06B(hasd), edeWire, blen, clen, obsCoq, len(reply), oulen, oclen)
 		} else if tr == vC06UDP || tr == vC06TCP {
-			coq = fmt.Sprintf("CaseRaw %s %s (%s) %s %s %s %d %s %d %d", vC06TrName[tr], cfgCoq, vC06AbsHeader(raw), bodyCoq, vC06B(strict), dnCoq, clen, obsCoq, len(reply), oulen)
+			coq = fmt.Sprintf("CaseRaw %s %s %s (%s) %s %s %s %d %s %d %d %d", vC06TrName[tr], cfgCoq, tab.table(), vC06AbsHeader(raw), bodyCoq, vC06B(strict), dnCoq, clen, obsCoq, len(reply), oulen, oclen)
 		} else if !bodyOK {
 			// DoH answers HTTP 400 / the DoQ handler closes the connection: no DNS reply to judge
 			if reply != nil {
@@ -1140,7 +1230,8 @@ func TestVerifC06Server(t *testing.T) {
 				qm = body.Copy()
 				qm.Id = qid
 			}
-			coq = fmt.Sprintf("CaseMsg %s %s (%s) %s %d %s %d %d", vC06TrName[tr], cfgCoq, tab.absMsg(qm, nil), dnCoq, clen, obsCoq, len(reply), oulen)
+			qmCoq := tab.absMsg(qm, nil)
+			coq = fmt.Sprintf("CaseMsg %s %s %s (%s) %s %d %s %d %d %d", vC06TrName[tr], cfgCoq, tab.table(), qmCoq, dnCoq, clen, obsCoq, len(reply), oulen, oclen)
 		}
 
 		// kind
@@ -1188,6 +1279,9 @@ func TestVerifC06Server(t *testing.T) {
 			"k": k, "coq": coq, "nontrivial": nontrivial,
 			"desc": map[string]any{"transport": vC06TrName[tr], "cfg": ci, "client": client.String(), "query_hex": hex.EncodeToString(raw),
 				"downstream": dn, "reply_hex": hex.EncodeToString(reply), "clen_oracle": clen},
+		}
+		if goFail == "" && tab.bad != "" {
+			goFail = "driver cannot abstract a record: " + tab.bad
 		}
 		if goFail != "" {
 			rec["go_fail"] = goFail
